@@ -165,6 +165,31 @@ def norm(path):
     return path
 
 
+def base_ty(t):
+    """`&mut utils::Spanned<T>` -> `utils::Spanned` (drop references and generic arguments)"""
+    if t is None:
+        return None
+    t = t.strip()
+    while t.startswith("&"):
+        t = t[1:].strip()
+        if t.startswith("'"):
+            t = t.split(" ", 1)[1] if " " in t else t
+        if t.startswith("mut "):
+            t = t[4:].strip()
+    if t.startswith("<"):
+        return t
+    out = ""
+    depth = 0
+    for c in t:
+        if c == "<":
+            depth += 1
+        elif c == ">":
+            depth -= 1
+        elif depth == 0:
+            out += c
+    return out.replace("::::", "::").rstrip(":")
+
+
 class Facts:
     def __init__(self, path):
         with open(path) as fh:
